@@ -1343,7 +1343,8 @@ def rule_list_order(cm, rep, rid):
                 if n in ('visitAtom', 'visitFunctor', '_debug'):
                     return [(st, Sym(n))]
             return SymEx.apply(self, e, f, args, kw, st, func)
-    sx = SX(cm.repo, inline=lambda f: f.cls is vis and not f.name.startswith('visit') and f.name != '_debug', opaque=lambda n: False)
+    sx = SX(cm.repo, inline=lambda f: (f.cls is vis and not f.name.startswith('visit') and f.name != '_debug') or
+            (f.cls is None and f.module is vis.module), opaque=lambda n: False)
     outs = sx.run(vt)
     found = 0
     for st, v in outs:
